@@ -91,6 +91,16 @@ Theorem C05_reserve_consumes_what_a_fresh_vector_consumes : forall L v n b junk 
 Proof. exact reserve_footprint_varying. Qed.
 Print Assumptions C05_reserve_consumes_what_a_fresh_vector_consumes.
 
+(* ... and for lists WITHOUT VaryingSize parameter (the grow formula differs from the constructor's
+   by the padding behind the last element; both round to the same number of storage units) *)
+Theorem C05_reserve_consumes_what_a_fresh_vector_consumes_fixed : forall L v n junk bid tbid aid junk' bid' tbid',
+  wf_plist L = true -> has_varying L = false -> Forall (fun c => 0 <= c) (fixed_counts L (v_fixed v)) ->
+  v_stride v = snd (esize L (v_fixed v)) -> 0 <= v_cap v < n ->
+  consumption L (fst (reserve L v n 0 junk bid tbid)) =
+  consumption L (fst (mkvec L n 0 (v_fixed v) aid junk' bid' tbid')).
+Proof. exact reserve_footprint_fixed. Qed.
+Print Assumptions C05_reserve_consumes_what_a_fresh_vector_consumes_fixed.
+
 Theorem C05_reserve_within_capacity_keeps_the_footprint : forall L v n b junk bid tbid, n <= v_cap v ->
   consumption L (fst (reserve L v n b junk bid tbid)) = consumption L v.
 Proof. exact reserve_within_capacity_footprint. Qed.
